@@ -48,7 +48,8 @@ Definition ident := Z.   (* symbol; the runner interns names, primitives have fi
 Inductive datum :=       (* quoted data: (quote d) *)
 | DInt (z : Z)
 | DSym (s : ident)
-| DFlt (h : Z)         (* the float literal h/2 (0.0, 0.5, -1.5 ..): floats enter only as literals *)
+| DFlt (h : Z)         (* the float literal h/2 (0.0, 0.5, -1.5 ..) *)
+| DChr (c : Z)         (* the character literal with code point c *)
 | DList (ds : list datum).
 
 Inductive expr :=
@@ -82,7 +83,7 @@ Inductive prim :=
 | PLt | PGt | PLe | PGe | PEq | PNe
 | PNot
 | PCons | PFirst | PRest | PList
-| PArray | PAget | PAset | PAppend | PLen | PConcat
+| PArray | PAget | PAset | PAppend | PLen | PConcat | PDiv
 | PMap | PApply
 | PTrace            (* host: records its arguments, returns the first *)
 | PFailK.           (* host: counts its calls, raises a user error on call number fail_at *)
@@ -93,7 +94,8 @@ Inductive value :=
 | VNil
 | VStr (s : list Z)
 | VSym (s : ident)
-| VFlt (h : Z)                                    (* the float h/2; arithmetic and comparison on floats are declined *)
+| VFlt (m e : Z)                                  (* the float m * 2^e, m odd (or 0 0): literals and the result of an inexact integer division; arithmetic and comparison on floats are declined *)
+| VChr (c : Z)                                    (* a character (rune); arithmetic and comparison on characters are declined *)
 | VPair (h t : value)
 | VArr (a : nat)                                  (* address in the array store *)
 | VClos (name : option ident) (ps : list ident) (rest : option ident)
@@ -101,12 +103,12 @@ Inductive value :=
 | VPrim (p : prim).
 
 (* the types zygo.Sexp.Type() distinguishes on the values above (None = untyped) *)
-Inductive ty := TInt | TBool | TStr | TSym | TSlice | TEmpty | TFloat.
+Inductive ty := TInt | TBool | TStr | TSym | TSlice | TEmpty | TFloat | TChar.
 
 (* printable snapshot of a value (arrays by content at the time of the snapshot) *)
 Inductive sval :=
 | SvInt (z : Z) | SvBool (b : bool) | SvNil | SvStr (s : list Z) | SvSym (s : ident)
-| SvPair (h t : sval) | SvArr (l : list sval) | SvFn | SvPrim (p : prim) | SvCut | SvFlt (h : Z).
+| SvPair (h t : sval) | SvArr (l : list sval) | SvFn | SvPrim (p : prim) | SvCut | SvFlt (m e : Z) | SvChr (c : Z).
 
 (* ------------------------------------------------------------------ 3. store *)
 
@@ -218,12 +220,13 @@ Definition truthy (v : value) : bool :=        (* expressions.go:IsTruthy *)
   | VBool b => b
   | VInt z => negb (z =? 0)
   | VNil => false
+  | VChr c => negb (c =? 0)
   | _ => true
   end.
 
 Definition ty_eqb (a b : ty) : bool :=
   match a, b with
-  | TInt, TInt | TBool, TBool | TStr, TStr | TSym, TSym | TSlice, TSlice | TEmpty, TEmpty | TFloat, TFloat => true
+  | TInt, TInt | TBool, TBool | TStr, TStr | TSym, TSym | TSlice, TSlice | TEmpty, TEmpty | TFloat, TFloat | TChar, TChar => true
   | _, _ => false
   end.
 
@@ -236,7 +239,8 @@ Fixpoint type_of (d : nat) (ars : list arrobj) (v : value) : option ty * list ar
   | VBool _ => (Some TBool, ars)
   | VStr _ => (Some TStr, ars)
   | VSym _ => (Some TSym, ars)
-  | VFlt _ => (Some TFloat, ars)
+  | VFlt _ _ => (Some TFloat, ars)
+  | VChr _ => (Some TChar, ars)
   | VArr a =>
     match d with
     | O => (None, ars)
@@ -309,8 +313,8 @@ Fixpoint cmp_val (d : nat) (ars : list arrobj) (a b : value) : cmpres :=
   | O => CmpUnspec
   | S d' =>
     match a with
-    | VInt x => match b with VInt y => CmpOk (zsgn (x ?= y)) | VFlt _ => CmpUnspec | _ => CmpErr end
-    | VFlt _ => CmpUnspec                        (* numeric comparison with a float: declined *)
+    | VInt x => match b with VInt y => CmpOk (zsgn (x ?= y)) | VFlt _ _ | VChr _ => CmpUnspec | _ => CmpErr end
+    | VFlt _ _ | VChr _ => CmpUnspec              (* numeric comparison with a float or a character: declined *)
     | VBool x => match b with
                  | VBool y => CmpOk (if x then (if y then 0 else 1) else (if y then -1 else 0))
                  | _ => CmpErr end
@@ -361,7 +365,8 @@ Fixpoint snap (d : nat) (ars : list arrobj) (v : value) {struct d} : sval :=
        | VNil => SvNil
        | VStr s => SvStr s
        | VSym s => SvSym s
-       | VFlt h => SvFlt h
+       | VFlt m e => SvFlt m e
+       | VChr c => SvChr c
        | VPair h t => SvPair (go h) (go t)
        | VArr a => match nth_error ars a with
                    | Some o => SvArr (map (snap d' ars) (a_elems o))
@@ -372,11 +377,52 @@ Fixpoint snap (d : nat) (ars : list arrobj) (v : value) {struct d} : sval :=
        end) v
   end.
 
+(* m * 2^e with the factors of two moved into the exponent (0 is 0 * 2^0) *)
+Fixpoint norm2 (fuel : nat) (m e : Z) : Z * Z :=
+  match fuel with
+  | O => (m, e)
+  | S k => if m =? 0 then (0, 0) else if Z.even m then norm2 k (m / 2) (e + 1) else (m, e)
+  end.
+
+(* float64 division of two int64 operands as Go computes it, float64(a) / float64(b), in integer arithmetic
+   (no real numbers: the evaluator stays free of the axioms of the reals).  rnd53 n d rounds the positive
+   rational n/d to 53 significant bits, ties to even, as m * 2^e; operands of 64 bits keep every result
+   far from the subnormal and overflow ranges.  Compared with Flocq's b64_div on examples in
+   Properties/C02.v and with the real interpreter by the correspondence run. *)
+Definition rnd53 (n d : Z) : Z * Z :=
+  let e := Z.log2 n - Z.log2 d - 53 in
+  let q0 := if e >=? 0 then n / (d * 2 ^ e) else (n * 2 ^ (- e)) / d in
+  let e1 := if q0 >=? 2 ^ 53 then e + 1 else e in
+  let num := if e1 >=? 0 then n else n * 2 ^ (- e1) in
+  let den := if e1 >=? 0 then d * 2 ^ e1 else d in
+  let q := num / den in
+  let r := num mod den in
+  (if (2 * r >? den) || ((2 * r =? den) && Z.odd q) then q + 1 else q, e1).
+
+Definition fl_of_Z (a : Z) : Z * Z := rnd53 a 1.      (* a > 0: float64(a) *)
+
+Definition fdiv_z (a b : Z) : Z * Z :=                 (* a, b <> 0 *)
+  let '(ma, ea) := fl_of_Z (Z.abs a) in
+  let '(mb, eb) := fl_of_Z (Z.abs b) in
+  let n := if ea >=? eb then ma * 2 ^ (ea - eb) else ma in
+  let d := if ea >=? eb then mb else mb * 2 ^ (eb - ea) in
+  let '(m, e) := rnd53 n d in
+  norm2 80 (if Z.eqb (Z.sgn a) (Z.sgn b) then m else - m) e.
+
+(* Go's string(rune): the UTF-8 encoding; code points that are not valid give U+FFFD *)
+Definition utf8 (c : Z) : list Z :=
+  if (c <? 0) || (1114111 <? c) || ((55296 <=? c) && (c <=? 57343)) then [239; 191; 189]
+  else if c <? 128 then [c]
+  else if c <? 2048 then [192 + c / 64; 128 + c mod 64]
+  else if c <? 65536 then [224 + c / 4096; 128 + (c / 64) mod 64; 128 + c mod 64]
+  else [240 + c / 262144; 128 + (c / 4096) mod 64; 128 + (c / 64) mod 64; 128 + c mod 64].
+
 Fixpoint datum_val (d : datum) : value :=
   match d with
   | DInt z => VInt z
   | DSym s => VSym s
-  | DFlt h => VFlt h
+  | DFlt h => let '(m, e) := norm2 80 h (-1) in VFlt m e
+  | DChr c => VChr c
   | DList ds => fold_right (fun x acc => VPair (datum_val x) acc) VNil ds
   end.
 
@@ -524,7 +570,7 @@ Section Open.
            end) ;;
     match fv with
     | VClos _ _ _ _ _ | VPrim _ => vs <- ev_args env args ;; ap fv vs
-    | VSym _ | VArr _ | VFlt _ => raise EUnspec
+    | VSym _ | VArr _ | VFlt _ _ | VChr _ => raise EUnspec
     | _ => match args with [] => ret fv | _ => raise EOther end
     end.
 
@@ -536,12 +582,41 @@ Section Open.
     | b :: r' => match acc with
                  | VInt x => match b with
                              | VInt y => arith op (VInt (wrap64 (op x y))) r'
-                             | VFlt _ => raise EUnspec      (* float arithmetic: declined *)
+                             | VFlt _ _ | VChr _ => raise EUnspec      (* float / character arithmetic: declined *)
                              | _ => raise EOther
                              end
-                 | VFlt _ => raise EUnspec
+                 | VFlt _ _ | VChr _ => raise EUnspec
                  | _ => raise EOther
                  end
+    end.
+
+  (* numerictower.go:NumericIntDo Div, folded over the arguments like + - *: an exact quotient is an
+     integer, otherwise the result is the float64 quotient of the operands converted to float64
+     (fdiv_z); dividing a float further is declined *)
+  Fixpoint divide (acc : value) (r : list value) : M value :=
+    match r with
+    | [] => ret acc
+    | b :: r' => match acc with
+                 | VInt x => match b with
+                             | VInt y =>
+                               if y =? 0 then raise EOther
+                               else if Z.rem x y =? 0 then divide (VInt (wrap64 (Z.quot x y))) r'
+                               else divide (VFlt (fst (fdiv_z x y)) (snd (fdiv_z x y))) r'
+                             | VFlt _ _ | VChr _ => raise EUnspec
+                             | _ => raise EOther
+                             end
+                 | VFlt _ _ | VChr _ => raise EUnspec
+                 | _ => raise EOther
+                 end
+    end.
+
+  (* strutils.go:ConcatStr: strings and characters (as UTF-8) appended to the first string *)
+  Fixpoint cat_strs (acc : list Z) (rest : list value) : option (list Z) :=
+    match rest with
+    | [] => Some acc
+    | VStr t :: r => cat_strs (acc ++ t) r
+    | VChr c :: r => cat_strs (acc ++ utf8 c) r
+    | _ => None
     end.
 
   Definition compare_prim (test : Z -> bool) (args : list value) : M value :=
@@ -600,6 +675,7 @@ Section Open.
     match p with
     | PAdd => match args with a :: r => arith Z.add a r | [] => raise EOther end
     | PSub => match args with a :: r => arith Z.sub a r | [] => raise EOther end
+    | PDiv => match args with a :: r => divide a r | [] => raise EOther end
     | PMul => match args with            (* functions.go:PointerOrNumericFunction *)
               | a :: b :: r => arith Z.mul a (b :: r)
               | [_] => raise EUnspec     (* one argument: pointer-to-type constructor *)
@@ -658,7 +734,8 @@ Section Open.
     | PAppend =>
       match args with
       | [VArr a; v] => o <- get_arr a ;; alloc_arr (a_elems o ++ [v]) (a_ty o)
-      | [VStr _; _] => raise EUnspec
+      | [VStr s; VStr t] => ret (VStr (s ++ t))          (* strutils.go:AppendStr *)
+      | [VStr s; VChr c] => ret (VStr (s ++ utf8 c))
       | _ => raise EOther
       end
     | PLen =>
@@ -695,7 +772,7 @@ Section Open.
                | None => raise EOther
                end
              end
-           | VStr _ :: _ => raise EUnspec
+           | VStr s0 :: rest => match cat_strs s0 rest with Some r => ret (VStr r) | None => raise EOther end
            | _ => raise EOther
            end
     | PMap =>
@@ -820,14 +897,14 @@ with apply (n : nat) (f : value) (args : list value) {struct n} : M value :=
 
 Definition all_prims : list prim :=
   [PAdd; PSub; PMul; PLt; PGt; PLe; PGe; PEq; PNe; PNot; PCons; PFirst; PRest; PList;
-   PArray; PAget; PAset; PAppend; PLen; PMap; PApply; PTrace; PFailK; PConcat].
+   PArray; PAget; PAset; PAppend; PLen; PMap; PApply; PTrace; PFailK; PConcat; PDiv].
 
 Definition prim_ident (p : prim) : ident :=
   match p with
   | PAdd => 1 | PSub => 2 | PMul => 3 | PLt => 4 | PGt => 5 | PLe => 6 | PGe => 7 | PEq => 8
   | PNe => 9 | PNot => 10 | PCons => 11 | PFirst => 12 | PRest => 13 | PList => 14
   | PArray => 15 | PAget => 16 | PAset => 17 | PAppend => 18 | PLen => 19 | PMap => 20
-  | PApply => 21 | PTrace => 22 | PFailK => 23 | PConcat => 24
+  | PApply => 21 | PTrace => 22 | PFailK => 23 | PConcat => 24 | PDiv => 25
   end.
 
 Definition global_frame : frame := map (fun p => (prim_ident p, VPrim p)) all_prims.
